@@ -413,6 +413,17 @@ def gen_cases(tier, rng):
     cases.append(make_case('ti0', ['multi'], ['7', 'x', '9'], 'sff'))
     cases.append(make_case('ti0', ['multi'], ['7', 'x', '9', '1'], 'sfff'))
     cases.append(make_case('ms0', ['chk=minlen~3'], ['ab,1;c,2'], 's'))
+    # fixed-size, tuple and bit-set destinations whose cardinality was removed or raised: the destination itself
+    # refuses more elements than it holds - exactly one too many, two too many, in one list and over several uses
+    for kind, full in (('ti', ['7', 'x', '9']), ('ai', ['1', '2', '3', '4']), ('ri', ['1', '2', '3', '4'])):
+        for card in ('card=none', 'card=max~9', 'card=range~1~9'):
+            for extra in (['5'], ['5', '6'], []):
+                seq = full + extra
+                cases.append(make_case(kind + '0', [card], [','.join(seq)], 's'))
+                cases.append(make_case(kind + '0', [card], seq, 's' * len(seq)))
+                cases.append(make_case(kind + '0', [card, 'multi'], seq, 's' + 'f' * (len(seq) - 1)))
+                if len(seq) > 2:
+                    cases.append(make_case(kind + '0', [card], [','.join(seq[:2]), ','.join(seq[2:])], 'ss'))
     # key-value destinations: a key that is stored already - by the initial content, by an earlier pair of the same
     # value list, by an earlier use of the argument, by the value before a free value - x unique data off / drop /
     # refuse x clear-before-assign off / on x initial content (none, one entry, a key twice).  Deterministic, both
